@@ -103,7 +103,7 @@ fn trace_of(sh: &Shared) -> String {
 
 /// line: `<id> <g:<sig>:<ms>|abort> <advance_ms> <behs~op;op/behs~op;op/...>`
 /// a job spec starting with `+` is created and started INSIDE the action that requests the quit
-async fn run_case(manner: String, advance: u64, jobs_spec: Vec<(Vec<Beh>, Vec<String>)>, late: Vec<bool>) -> String {
+async fn run_case(manner: String, advance: u64, jobs_spec: Vec<(Vec<Beh>, Vec<String>)>, late: Vec<bool>, inops: Vec<Vec<String>>) -> String {
     use watchexec::{Config, Watchexec};
     use watchexec_events::{Event, Priority};
     let t0 = Instant::now();
@@ -113,8 +113,9 @@ async fn run_case(manner: String, advance: u64, jobs_spec: Vec<(Vec<Beh>, Vec<St
     let config = Config::default();
     config.throttle(Duration::ZERO);
     let late_handles: Arc<Mutex<Vec<Job>>> = Default::default();
+    let inaction: Arc<Mutex<Vec<Job>>> = Default::default();      // clones of the early jobs' handles, for the in-action controls
     let nearly = late.iter().filter(|l| !**l).count();
-    config.on_action({ let shared = shared.clone(); let handles = handles.clone(); let late_handles = late_handles.clone(); let late = late.clone(); let phase = phase.clone(); let manner = manner.clone(); move |mut action| {
+    config.on_action({ let shared = shared.clone(); let handles = handles.clone(); let late_handles = late_handles.clone(); let late = late.clone(); let phase = phase.clone(); let manner = manner.clone(); let inaction = inaction.clone(); let inops = inops.clone(); move |mut action| {
         match phase.fetch_add(1, std::sync::atomic::Ordering::SeqCst) {
             0 => { for (sh, _) in shared.iter().zip(late.iter()).filter(|(_, l)| !**l) {
                     let cmd = Arc::new(Command { program: Program::Exec { prog: "true".into(), args: vec![] }, options: Default::default() });
@@ -131,6 +132,8 @@ async fn run_case(manner: String, advance: u64, jobs_spec: Vec<(Vec<Beh>, Vec<St
                     job.start();
                     late_handles.lock().unwrap().push(job);
                 }
+                { let hs = inaction.lock().unwrap(); let early: Vec<usize> = (0..late.len()).filter(|i| !late[*i]).collect();
+                  for (k, ji) in early.iter().enumerate() { for op in &inops[*ji] { let parts: Vec<&str> = op.split(':').collect(); if let Some(j) = hs.get(k) { let _ = api(j, &parts[1..], &shared[*ji]); } } } }
                 let p: Vec<&str> = manner.split(':').collect();
                    if p[0] == "abort" { action.quit(); } else { action.quit_gracefully(Signal::from(p[1].parse::<i32>().unwrap()), Duration::from_millis(p[2].parse().unwrap())); } }
             _ => {}
@@ -141,6 +144,7 @@ async fn run_case(manner: String, advance: u64, jobs_spec: Vec<(Vec<Beh>, Vec<St
     wx.send_event(Event::default(), Priority::Urgent).await.unwrap();
     settle().await;
     let jobs: Vec<Job> = handles.lock().unwrap().clone();
+    if inops.iter().any(|o| !o.is_empty()) { *inaction.lock().unwrap() = jobs.clone(); }
     if jobs.len() != nearly { return format!("setup-failed:{}", jobs.len()); }
     let early_idx: Vec<usize> = (0..jobs_spec.len()).filter(|i| !late[*i]).collect();
     for (k, ji) in early_idx.iter().enumerate() {
@@ -173,9 +177,11 @@ fn main() {
         let late: Vec<bool> = f[3].split('/').map(|j| j.starts_with('+')).collect();
         let jobs: Vec<(Vec<Beh>, Vec<String>)> = f[3].split('/').map(|j| { let (b, ops) = j.trim_start_matches('+').split_once('~').unwrap();
             (b.split(',').map(|b| match b.as_bytes()[0] { b'E' => Beh::ExitsAfter(b[1..].parse().unwrap()), b'S' => Beh::ExitsAfterSignal(b[1..].parse().unwrap()), b'F' => Beh::SpawnFails, _ => Beh::Ignores }).collect(),
-             ops.split(';').map(|s| s.to_string()).collect()) }).collect();
+             ops.split('!').next().unwrap().split(';').map(|s| s.to_string()).collect()) }).collect();
+        // `…!op;op`: controls sent to that job from INSIDE the action that requests the quit, just before the quit
+        let inops: Vec<Vec<String>> = f[3].split('/').map(|j| j.split_once('!').map(|(_, o)| o.split(';').filter(|s| !s.is_empty()).map(|s| s.to_string()).collect()).unwrap_or_default()).collect();
         let rt = tokio::runtime::Builder::new_current_thread().enable_all().start_paused(true).build().unwrap();
-        let res = rt.block_on(run_case(f[1].to_string(), f[2].parse().unwrap(), jobs, late));
+        let res = rt.block_on(run_case(f[1].to_string(), f[2].parse().unwrap(), jobs, late, inops));
         rt.shutdown_background();
         writeln!(o, "{} {}", f[0], res).unwrap();
     }
